@@ -149,6 +149,17 @@ pub open spec fn n_observe_seq<F: Field>(s: NState<F>, vs: Seq<F>, rate: nat) ->
     if vs.len() == 0 { s } else { n_observe(n_observe_seq(s, vs.drop_last(), rate), vs.last(), rate) }
 }
 /// sample k base elements: resulting state and the values in sampling order (sample_algebra_element)
+/// native `observe_algebra_slice`: each element's basis coefficients, in order
+pub open spec fn n_observe_ext_seq<F: Field>(s: NState<F>, vs: Seq<F>, rate: nat) -> NState<F> decreases vs.len() {
+    if vs.len() == 0 { s } else { n_observe_seq(n_observe_ext_seq(s, vs.drop_last(), rate), coeffs_of(vs.last()), rate) }
+}
+/// native `sample_algebra_element` k times
+pub open spec fn n_sample_ext_many_state<F: Field>(s: NState<F>, k: nat, d: nat, rate: nat) -> NState<F> decreases k {
+    if k == 0 { s } else { n_sample_many_state(n_sample_ext_many_state(s, (k - 1) as nat, d, rate), d, rate) }
+}
+pub open spec fn n_sample_ext_many_vals<F: Field>(s: NState<F>, k: nat, d: nat, rate: nat) -> Seq<F> decreases k {
+    if k == 0 { Seq::empty() } else { n_sample_ext_many_vals(s, (k - 1) as nat, d, rate).push(ext_of(n_sample_many_vals(n_sample_ext_many_state(s, (k - 1) as nat, d, rate), d, rate))) }
+}
 pub open spec fn n_sample_many_state<F: Field>(s: NState<F>, k: nat, rate: nat) -> NState<F> decreases k {
     if k == 0 { s } else { n_sample_state(n_sample_many_state(s, (k - 1) as nat, rate), rate) }
 }
@@ -501,8 +512,73 @@ def build():
             lemma_vals_of_extends(&circ_a, circuit, self.output_buffer@);
         }''', nth=0)
 
+    # ---------------------------------------------------------------- provided trait methods (override in the impl, else the trait default)
+    TF, TR = 'recursion/src/traits/challenger.rs', r'pub trait RecursiveChallenger<'
+    os_ = common(u.extract_impl_or_default(F, TIMPL, TF, TR, 'observe_slice', 'CircuitChallenger::observe_slice'))
+    os_.set_sig('R11', 'fn observe_slice<EF: ExtX>(&mut self, circuit: &mut CircuitBuilder<EF>, values: &[Target])')
+    os_.rewrite_re('R5', r'for &(\w+) in values \{', r'for sl_ in 0..values.len() { let \1 = values[sl_];', min_count=0)
+    os_.rewrite_re('R11', r'self\.observe\(', 'self.observe::<EF>(', min_count=0)
+    os_.requires('inv', 'old(self).inv(old(circuit)) && old(circuit).has_all(values@)')
+    os_.ensures('refines_native_observe_slice', 'final(self).abs(final(circuit)) == n_observe_seq(old(self).abs(old(circuit)), old(circuit).vals_of(values@), RATE as nat)')
+    os_.ensures('inv', 'final(self).inv(final(circuit)) && final(self).config == old(self).config')
+    os_.ensures('frame', 'final(circuit).extends(old(circuit))')
+    if 'for sl_ in 0..values.len()' in os_.body:
+        os_.before('for sl_ in 0..values.len()', 'let ghost n0 = old(self).abs(old(circuit)); let ghost vv = old(circuit).vals_of(values@); proof { assert(vv.take(0) =~= Seq::<EF>::empty()); }')
+        os_.loop('for sl_ in 0..values.len()', invariants=[
+            ('inv', 'self.inv(circuit) && self.config == old(self).config && circuit.extends(old(circuit))'),
+            ('vals', 'circuit.has_all(values@) && circuit.vals_of(values@) == vv && vv.len() == values@.len()'),
+            ('abs', 'self.abs(circuit) == n_observe_seq(n0, vv.take(sl_ as int), RATE as nat)'),
+        ])
+        os_.rewrite_re('SPEC', r'(self\.observe::<EF>\(circuit, \w+\);)', r'''let ghost circ_b = *circuit; proof { assert(circuit.has(values@[sl_ as int])); assert(circuit.val(values@[sl_ as int]) == vv[sl_ as int]); }
+            \1
+            proof { lemma_vals_of_extends(&circ_b, circuit, values@); assert(vv.take(sl_ + 1).drop_last() =~= vv.take(sl_ as int)); assert(vv.take(sl_ + 1).last() == vv[sl_ as int]); }''')
+        os_.at_end('proof { assert(vv.take(vv.len() as int) =~= vv); }')
+
+    oes = common(u.extract_impl_or_default(F, TIMPL, TF, TR, 'observe_ext_slice', 'CircuitChallenger::observe_ext_slice'))
+    oes.set_sig('R11', 'fn observe_ext_slice<BF, EF: ExtX>(&mut self, circuit: &mut CircuitBuilder<EF>, values: &[Target])')
+    oes.rewrite_re('R5', r'for &(\w+) in values \{', r'for sl_ in 0..values.len() { let \1 = values[sl_];', min_count=0)
+    oes.rewrite_re('R11', r'self\.observe_ext\(', 'self.observe_ext::<BF, EF>(', min_count=0)
+    oes.requires('inv', 'old(self).inv(old(circuit)) && old(circuit).has_all(values@)')
+    oes.ensures('refines_native_observe_algebra_slice', 'final(self).abs(final(circuit)) == n_observe_ext_seq(old(self).abs(old(circuit)), old(circuit).vals_of(values@), RATE as nat)')
+    oes.ensures('inv', 'final(self).inv(final(circuit)) && final(self).config == old(self).config')
+    oes.ensures('frame', 'final(circuit).extends(old(circuit))')
+    if 'for sl_ in 0..values.len()' in oes.body:
+        oes.before('for sl_ in 0..values.len()', 'let ghost n0 = old(self).abs(old(circuit)); let ghost vv = old(circuit).vals_of(values@); proof { assert(vv.take(0) =~= Seq::<EF>::empty()); }')
+        oes.loop('for sl_ in 0..values.len()', invariants=[
+            ('inv', 'self.inv(circuit) && self.config == old(self).config && circuit.extends(old(circuit))'),
+            ('vals', 'circuit.has_all(values@) && circuit.vals_of(values@) == vv && vv.len() == values@.len()'),
+            ('abs', 'self.abs(circuit) == n_observe_ext_seq(n0, vv.take(sl_ as int), RATE as nat)'),
+        ])
+        oes.rewrite_re('SPEC', r'(self\.observe_ext::<BF, EF>\(circuit, \w+\);)', r'''let ghost circ_b = *circuit; proof { assert(circuit.has(values@[sl_ as int])); assert(circuit.val(values@[sl_ as int]) == vv[sl_ as int]); }
+            \1
+            proof { lemma_vals_of_extends(&circ_b, circuit, values@); assert(vv.take(sl_ + 1).drop_last() =~= vv.take(sl_ as int)); assert(vv.take(sl_ + 1).last() == vv[sl_ as int]); }''')
+        oes.at_end('proof { assert(vv.take(vv.len() as int) =~= vv); }')
+
+    sev = common(u.extract_impl_or_default(F, TIMPL, TF, TR, 'sample_ext_vec', 'CircuitChallenger::sample_ext_vec'))
+    sev.set_sig('R11', 'fn sample_ext_vec<BF, EF: ExtX>(&mut self, circuit: &mut CircuitBuilder<EF>, count: usize) -> Vec<Target>')
+    sev.rewrite_re('R6', r'\(0\.\.count\)\s*\.map\(\|_\| self\.sample_ext\(circuit\)\)\s*\.collect\(\)',
+                   '{ let mut out_: Vec<Target> = Vec::new(); for k_ in 0..count { let t_ = self.sample_ext::<BF, EF>(circuit); out_.push(t_); } out_ }', min_count=0)
+    sev.requires('inv', 'old(self).inv(old(circuit))')
+    sev.ensures('refines_native_sample_algebra_elements_state', 'final(self).abs(final(circuit)) == n_sample_ext_many_state(old(self).abs(old(circuit)), count as nat, sp_dim::<EF>(), RATE as nat)')
+    sev.ensures('returns_native_sample_algebra_elements', 'final(circuit).has_all(ret@) && final(circuit).vals_of(ret@) == n_sample_ext_many_vals(old(self).abs(old(circuit)), count as nat, sp_dim::<EF>(), RATE as nat)')
+    sev.ensures('inv', 'final(self).inv(final(circuit)) && final(self).config == old(self).config')
+    sev.ensures('frame', 'final(circuit).extends(old(circuit))')
+    if 'for k_ in 0..count' in sev.body:
+        sev.at_start('let ghost n0 = self.abs(circuit);')
+        sev.loop('for k_ in 0..count', invariants=[
+            ('inv', 'self.inv(circuit) && self.config == old(self).config && circuit.extends(old(circuit))'),
+            ('len', 'out_@.len() == k_ && circuit.has_all(out_@)'),
+            ('abs', 'self.abs(circuit) == n_sample_ext_many_state(n0, k_ as nat, sp_dim::<EF>(), RATE as nat)'),
+            ('vals', 'circuit.vals_of(out_@) == n_sample_ext_many_vals(n0, k_ as nat, sp_dim::<EF>(), RATE as nat)'),
+        ])
+        sev.before('let t_ = self.sample_ext::<BF, EF>(circuit);', 'let ghost circ_b = *circuit; let ghost cs0 = out_@;')
+        sev.after('out_.push(t_);', '''proof {
+                lemma_vals_of_extends(&circ_b, circuit, cs0);
+                assert(circuit.vals_of(out_@) =~= circ_b.vals_of(cs0).push(circuit.val(t_)));
+            }''')
+
     u.text('verus! {\nimpl<const WIDTH: usize, const RATE: usize, C: ChallengerPermConfig> CircuitChallenger<WIDTH, RATE, C> {')
-    for f in (n, i, d, o, s, c, oe, se, sb, pw):
+    for f in (n, i, d, o, s, c, oe, se, sb, pw, os_, oes, sev):
         u.emit(f)
     u.text('}\n}')
     return u
